@@ -332,7 +332,7 @@ fn run_worker(cfg: &RunCfg, id: &str, lane: &Lane, worker: usize, cases: u64) ->
         source_file: None,
         test_name: None,
         max_shrink_time: 0,
-        max_shrink_iters: 6000,
+        max_shrink_iters: std::env::var("VERIF_MAX_SHRINK").ok().and_then(|v| v.parse().ok()).unwrap_or(6000),
         max_default_size_range: 100,
         verbose: 0,
         rng_algorithm: RngAlgorithm::ChaCha,
